@@ -63,7 +63,7 @@ func TestFragGrid(t *testing.T) {
 			c.Frames = append(c.Frames, mk(f, base))
 		}
 		evid.Journal("barrage", c)
-		f := evid.Guard(func() *evid.Failure {
+		f := guarded(func() *evid.Failure {
 			for _, x := range c.Frames {
 				w.Inject(x)
 			}
@@ -75,7 +75,7 @@ func TestFragGrid(t *testing.T) {
 			nts++
 		}
 		if f == nil && inWorld%4000 == 0 {
-			f = w.Probe()
+			f = guarded(w.Probe)
 		}
 		if f != nil {
 			evid.Direct(t, "barrage", f, c)
